@@ -185,8 +185,30 @@ def judge (c : C04Case) (eng : String) (idx : Nat) (st : Step) (pair : String) (
       let f9 := ctxS.any (fun t1 => forSubject t1 &&
         (ctxS ++ c.base).any (fun t2 => t2.obj = t1.obj && t2.rel = t1.rel && t2.user ≠ t1.user && forSubject t2 &&
           (t1.cond ≠ "" || t2.cond ≠ "")))
+      -- ListUsers: which side disagrees with Check's reference semantics on the merged world? When the answer WITH
+      -- contextual tuples is the right one and the answer over the all-stored world is wrong, the defect is
+      -- ListUsers' own (C06 findings LU-B…LU-J: status maps whose survivor depends on read order; contextual tuples
+      -- are read first), not the handling of contextual tuples.
+      let luOwn : Bool :=
+        if st.kind = "lu" && c.stratified && a.startsWith "[" && b.startsWith "[" && pl = a then
+          match st.reqs with
+          | (aux, rq) :: _ =>
+            let parse := fun (s : String) => ((s.drop 1).toString.dropEnd 1).toString.splitOn "," |>.filter (· ≠ "")
+            let la := parse a
+            let lb := parse b
+            let us := (la ++ lb).eraseDups
+            if us.all (fun u => userType u = userType rq.user && !isTypedWildcard u && !(u.contains '#')) then
+              let cls := fun (u : String) =>
+                oracleClass { model := c.model, aux := aux, stored := c.base ++ ctxOf c st.sel, ctxTuples := [], req := { rq with user := u } }
+              let okSide := fun (l : List String) => us.all (fun u => let o := cls u; (o = "T" && l.contains u) || (o = "F" && !l.contains u))
+              okSide la && !okSide lb
+            else false
+          | [] => false
+        else false
       let tag :=
-        if pl = b then
+        if luOwn then
+          "[C04-LU-OWN] ListUsers over the all-stored world disagrees with Check while the answer with contextual tuples agrees with it: ListUsers' own status-map defects (C06 findings LU-B..LU-J), whose outcome depends on read order (contextual tuples are read first)"
+        else if pl = b then
           s!"[C04-CACHE engine={eng}] the answer with contextual tuples is right without caches and differs with caches on"
         else if eng = "v2" && ctxS.any (looseCondition c.model) then
           "[C04-V2-CTXVALID] the weighted-graph engine treats a contextual tuple that only the lax validateCondition accepts (condition declared on a restriction of another shape of the same user type) differently from the same tuple stored"
